@@ -71,7 +71,7 @@ def is_D(m):
 # ----------------------------------------------------------------------------
 OBJ = ["A", "B", "C", "None"]
 FUN = ["F", "G", "H"]
-FREE = ["p", "q"]
+FREE = ["p", "q", "x", "y", "__VA_ARGS__"]
 NUMS = ["0", "1", "2", "7"]
 OPS = ["+", "*", "-", "<", "=="]
 
@@ -277,8 +277,7 @@ class C03(Check):
         super().__init__(tier, seed)
         self.hist = {}
         self.oracle = {"cases": 0, "skipped_gcc_diagnosed": 0, "disagreements": 0}
-        self._cases = []
-        self._spec = {}
+        self._spec_log = []
 
     # ---- generation ----
     def generate(self):
@@ -385,8 +384,14 @@ class C03(Check):
             return None
         s = ans[1]
         if s[0] == "Ok":
-            return ["Ok", [str(x) for x in s[1]]]
-        return ["Err", s[1]]
+            r = ["Ok", [str(x) for x in s[1]]]
+        else:
+            r = ["Err", s[1]]
+        if len(self._spec_log) < 200000:
+            self._spec_log.append((case, r))
+        k = "S:" + (r[0] if r[0] == "Ok" else r[1])
+        self.hist[k] = self.hist.get(k, 0) + 1
+        return r
 
     def in_domain(self, case, spec_ans):
         return spec_ans is not None and spec_ans[0] == "Ok"
@@ -404,7 +409,65 @@ class C03(Check):
         return any(m["params"] is not None for m in case["macros"]) or "#" in txt or \
             any(n["name"] in (m["body"] or "") for m in case["macros"] for n in case["macros"])
 
+    # ---- known-finding classes (narrow predicates; see findings/C03.json) ----
+    @staticmethod
+    def _body_toks(m):
+        try:
+            return [(type(t).__name__, t.token) for t in lex(m["body"] or "")]
+        except Exception:
+            return []
+
+    def _params(self, m):
+        return Gen(None).pnames(m)
+
+    _max_level = None
+
+    def max_level(self):
+        if C03._max_level is None:
+            src = (common.REPO / "codebasin" / "preprocessor.py").read_text()
+            C03._max_level = int(re.search(r"self\.max_level\s*=\s*(\d+)", src).group(1))
+        return C03._max_level
+
     def classify(self, case, impl_ans, spec_ans):
+        ms = case["macros"]
+        # (1) -DNAME=value whose value begins with '=' : "NAME==..." is lexed as '==' and rejected
+        if impl_ans[0] == "DefErr" and impl_ans[2] == "ParseError":
+            m = ms[impl_ans[1]]
+            if is_D(m) and (m["body"] or "").lstrip().startswith("="):
+                return "dashD-value-starts-with-equals"
+            return None
+        # (0) the 200-level backstop: only tables with at least max_level-1 macros can reach it
+        if impl_ans == ["Ok", ["0"]] and len(ms) >= self.max_level() - 1:
+            return "depth-limit-200"
+        variadic = [m for m in ms if m["params"] and m["params"][-1].endswith("...")]
+        hashy = [m for m in ms if m["params"] is not None and "#" in (m["body"] or "")]
+        # (2) white space before a comma inside the variable argument is lost by #__VA_ARGS__
+        if impl_ans[0] == "Ok" and spec_ans[0] == "Ok" and variadic and hashy and len(impl_ans[1]) == len(spec_ans[1]):
+            diff = [(a, b) for a, b in zip(impl_ans[1], spec_ans[1]) if a != b]
+            if diff and all(a.startswith('"') and b.startswith('"') and a.replace(" ,", ",") == b.replace(" ,", ",")
+                            for a, b in diff):
+                return "variadic-comma-white-space"
+        # (3) a token that comes out of # / ## processing (argument token, string) and is spelled like
+        #     a parameter of the macro is substituted a second time
+        for m in hashy:
+            for p in self._params(m):
+                others = [t for n in ms if n is not m for t in self._body_toks(n)]
+                try:
+                    others += [(type(t).__name__, t.token) for t in lex(case["input"])]
+                except Exception:
+                    pass
+                if any(tok == p for (_, tok) in others):
+                    return "operand-token-resubstituted"
+        # (4) an argument used only as operand of # / ## is macro-expanded all the same; visible when
+        #     that needless expansion fails (a nested call with the wrong number of arguments)
+        if impl_ans[0] == "Err" and impl_ans[1] == "IndexError" and spec_ans[0] == "Ok":
+            for m in hashy:
+                bt = self._body_toks(m)
+                for p in self._params(m):
+                    idx = [i for i, (_, t) in enumerate(bt) if t == p]
+                    if idx and all((i > 0 and bt[i - 1][1] in ("#", "##")) or (i + 1 < len(bt) and bt[i + 1][1] == "##")
+                                   for i in idx):
+                        return "operand-only-argument-expanded"
         return None
 
     # ---- shrinking ----
@@ -447,6 +510,118 @@ class C03(Check):
                 if changed:
                     break
         return cur
+
+    # ---- second observation point: `#if INPUT == k` through finder.find ----
+    def if_observation(self, case, value):
+        """finder.find on  #defines / #if INPUT == value / #else / #endif ; returns (then_taken, else_taken)"""
+        import codebasin
+        from codebasin import finder
+        root = common.scratch() / "c03if"
+        if root.exists():
+            shutil.rmtree(root)
+        root.mkdir(parents=True)
+        lines = []
+        defs = []
+        for m in case["macros"]:
+            if is_D(m):
+                defs.append(dash_d_text(m))
+            else:
+                lines.append(define_text(m))
+        lines += [f"#if ({case['input']}) == {value}", "int then_branch;", "#else", "int else_branch;", "#endif", ""]
+        f = root / "main.c"
+        f.write_text("\n".join(lines))
+        cb = codebasin.CodeBase(root)
+        cfg = {"p": [{"file": str(f), "defines": defs, "include_paths": [], "include_files": []}]}
+        state = finder.find(root, cb, cfg)
+        tree = state.get_tree(str(f))
+        assoc = state.get_map(str(f))
+        then_line = lines.index("int then_branch;") + 1
+        else_line = lines.index("int else_branch;") + 1
+        res = {}
+        for node in tree.walk():
+            if type(node).__name__ == "CodeNode":
+                if then_line in node.lines:
+                    res["then"] = "p" in assoc[node]
+                if else_line in node.lines:
+                    res["else"] = "p" in assoc[node]
+        return [res.get("then"), res.get("else")]
+
+    def self_tests(self):
+        problems = []
+        problems += self.if_tests()
+        problems += self.gcc_tests()
+        return problems
+
+    def if_tests(self):
+        """cases whose S-expansion is one decimal integer: `#if (INPUT) == k` must select the then-branch
+        and `#if (INPUT) == k+1` the else-branch (observed through finder.find)."""
+        n = 0
+        bad = []
+        limit = 60 if self.tier == "quick" else 600
+        for c, sa in self._spec_log:
+            if n >= limit:
+                break
+            if sa[0] == "Ok" and len(sa[1]) == 1 and re.fullmatch(r"[1-9][0-9]{0,3}|0", sa[1][0]) and \
+                    "defined" not in c["input"] and any(m["params"] is not None for m in c["macros"]):
+                k = int(sa[1][0])
+                try:
+                    a = self.if_observation(c, k)
+                    b = self.if_observation(c, k + 1)
+                except Exception as e:  # noqa
+                    a, b = ["EXC", type(e).__name__], None
+                n += 1
+                if a != [True, False] or b != [False, True]:
+                    ia = self.impl(c)
+                    if ia == sa:      # expand agrees with S but the #if route does not
+                        bad.append({"case": c, "k": k, "eq": a, "neq": b})
+        self.hist["if_route_cases"] = n
+        self.hist["if_route_disagreements"] = len(bad)
+        if bad:
+            return [f"#if route (finder.find) disagrees with expand() on {len(bad)} of {n} cases: {bad[0]}"]
+        return []
+
+    def gcc_tests(self):
+        if shutil.which("gcc") is None:
+            return ["gcc not available: S not validated against an external preprocessor"]
+        d = common.scratch() / "c03gcc"
+        d.mkdir(parents=True, exist_ok=True)
+        limit = 250 if self.tier == "quick" else 4000
+        idx = list(range(len(self._spec_log)))
+        self.rng.shuffle(idx)
+        bad = []
+        for i in idx:
+            if self.oracle["cases"] >= limit:
+                break
+            c, sa = self._spec_log[i]
+            if sa[0] != "Ok" or "defined" in c["input"]:
+                continue
+            lines = [define_text(m) for m in c["macros"] if not is_D(m)]
+            lines.append("@@START@@")
+            lines.append(c["input"])
+            src = d / "t.c"
+            src.write_text("\n".join(lines) + "\n")
+            args = ["gcc", "-E", "-P", "-undef", "-nostdinc", "-x", "c"] + \
+                   ["-D" + dash_d_text(m) for m in c["macros"] if is_D(m)] + [str(src)]
+            p = subprocess.run(args, capture_output=True, text=True, timeout=30)
+            if p.returncode != 0 or p.stderr.strip():
+                self.oracle["skipped_gcc_diagnosed"] += 1
+                continue
+            out = p.stdout.split("@@START@@", 1)
+            if len(out) != 2:
+                self.oracle["skipped_gcc_diagnosed"] += 1
+                continue
+            try:
+                got = [canon_tok(t) for t in lex(out[1])]
+            except Exception:
+                continue
+            self.oracle["cases"] += 1
+            if got != sa[1]:
+                self.oracle["disagreements"] += 1
+                bad.append({"case": c, "spec": sa[1], "gcc": got})
+        if bad:
+            self.oracle["first_disagreement"] = bad[0]
+            return [f"S disagrees with gcc -E -P on {len(bad)} of {self.oracle['cases']} cases: {json.dumps(bad[0])}"]
+        return []
 
     def extra_coverage(self):
         return {"input_distribution": self.hist, "spec_oracle": self.oracle}
